@@ -226,6 +226,10 @@ func (fs *Store) VisitMailboxes(f func([]storage.Message) (cont bool)) error {
 	for _, name1 := range names1 {
 		names2, err := readDirNames(fs.mailPath, name1)
 		if err != nil {
+			if os.IsNotExist(err) {
+				// Removed since its parent was listed: no mailboxes here.
+				continue
+			}
 			return err
 		}
 
@@ -233,6 +237,9 @@ func (fs *Store) VisitMailboxes(f func([]storage.Message) (cont bool)) error {
 		for _, name2 := range names2 {
 			names3, err := readDirNames(fs.mailPath, name1, name2)
 			if err != nil {
+				if os.IsNotExist(err) {
+					continue
+				}
 				return err
 			}
 
